@@ -380,7 +380,12 @@ func (e *Engine) havocLoopWrites(st *State, fr *Frame, li *loopInfo) {
 	}
 	e.havocWriteSet(st, fr, w)
 	// iterators
+	var its []ssa.Value
 	for it := range st.iter {
+		its = append(its, it)
+	}
+	sort.Slice(its, func(i, j int) bool { return its[i].Pos() < its[j].Pos() || (its[i].Pos() == its[j].Pos() && its[i].Name() < its[j].Name()) })
+	for _, it := range its {
 		if r, ok := it.(*ssa.Range); ok && li.blocks[r.Block()] == false {
 			// iterator created outside, advanced inside
 			el := st.iter[it]
@@ -653,10 +658,13 @@ func (e *Engine) scanWrites(fr *Frame, instrs []ssa.Instruction, w *writeSet, en
 				}
 				if c != nil && !c.Inline {
 					e.scanContractWrites(callee, c, cc, w, env)
-					// pointer arguments that designate cells are in/out
-					for _, a := range cc.Args {
-						if _, ok := a.Type().Underlying().(*types.Pointer); ok {
-							markType(a)
+					// pointer arguments are in/out unless the callee's contract has an explicit frame (assigns),
+					// which says exactly what it may write
+					if !c.HasAssign {
+						for _, a := range cc.Args {
+							if _, ok := a.Type().Underlying().(*types.Pointer); ok {
+								markType(a)
+							}
 						}
 					}
 				} else if len(bodyOf(callee).Blocks) > 0 {
